@@ -188,10 +188,39 @@ def _wide(backend, k, seed, power):
     return obs, (len(obs) == 1 and obs[0]["rows"] == want_rows)
 
 
+def _large_rows(backend, n_rows, seed):
+    """a table of 1e5+ rows with aggregated and row-level metrics: still one aggregate query (one row per variant) and one
+    row-level fetch (all rows, declared columns + variant)"""
+    import random
+    import tea_tasting as tt
+    rng = random.Random(seed)
+    data = {"variant": [i % 2 for i in range(n_rows)], "x": [float(rng.randint(0, 99)) for _ in range(n_rows)],
+            "y": [float(rng.randint(1, 9)) for _ in range(n_rows)], "junk": [0] * n_rows}
+    exp = tt.Experiment(m=tt.Mean("x"), r=tt.RatioOfMeans("x", "y"), q=tt.Quantile("y", 0.5, n_resamples=5, random_state=1))
+    try:
+        tab = B.make_table(backend, data)
+        with B.fetch_counters() as log:
+            exp.analyze(tab)
+    finally:
+        B.cleanup()
+    obs = [{"rows": f["rows"], "columns": sorted(f["columns"])[:6]} for f in log]
+    ok = (len(log) == 2 and log[0]["rows"] == 2 and log[1]["rows"] == n_rows and sorted(log[1]["columns"]) == ["variant", "y"])
+    return obs, ok
+
+
 def wide_oracle(ctx):
     for backend in B.LAZY_KINDS:
+        n_rows = 120_000 if backend == "ibis-sqlite" else 100_000
+        seed = ctx.rng.randint(0, 10**6)
+        obs, ok = _large_rows(backend, n_rows, seed)
+        ctx.evaluations += 1
+        ctx.count("oracle:large-table")
+        if not ok:
+            ctx.violations.append({"what": "large table: not exactly one aggregate query and one row-level fetch", "detail": str(obs),
+                                   "input": {"large_rows": True, "backend": backend, "rows": n_rows, "seed": seed}})
+    for backend in B.LAZY_KINDS:
         for power in (False, True):
-            k = ctx.rng.choice([45, 60, 90])
+            k = 180 if backend == "ibis-sqlite" else ctx.rng.choice([45, 90])          # 135 .. 540 aggregate expressions
             seed = ctx.rng.randint(0, 10**6)
             obs, ok = _wide(backend, k, seed, power)
             ctx.evaluations += 1
@@ -204,6 +233,9 @@ def wide_oracle(ctx):
 
 def replay(ctx, rp):
     case = rp["input"]
+    if case.get("large_rows"):
+        obs, ok = _large_rows(case["backend"], case["rows"], case["seed"])
+        return {"fails": not ok, "observed": obs}
     if case.get("wide"):
         obs, ok = _wide(case["backend"], case["k"], case["seed"], case["power"])
         return {"fails": not ok, "observed": obs}
